@@ -132,6 +132,19 @@ func c14Helpers(w *rt.W, ta, tb string) {
 		{"LatestVersion", true, false, nil, func() (sem.Ver, error) { return sem.LatestVersion(ta, tb) }, func(s string) (sem.Ver, error) { return sem.ParseVersion(s) }},
 		{"LatestTag", false, true, nil, func() (sem.Ver, error) { return sem.LatestTag([]byte(ta), []byte(tb)) }, func(s string) (sem.Ver, error) { return sem.ParseTag(s) }},
 	}
+	// both texts as adjacent fields of one record buffer, handed over as sub-slices
+	rec := []byte(ta + tb + "|END")
+	ra, rb := rec[:len(ta)], rec[len(ta):len(ta)+len(tb)]
+	hs = append(hs,
+		helper{"Compare on adjacent sub-slices", true, true, func() (int, error) { return sem.Compare(ra, rb) }, nil, func(s string) (sem.Ver, error) { return sem.Parse(s) }},
+		helper{"CompareTag on adjacent sub-slices", false, true, func() (int, error) { return sem.CompareTag(ra, rb) }, nil, func(s string) (sem.Ver, error) { return sem.ParseTag(s) }},
+		helper{"LatestVersion on adjacent sub-slices", true, false, nil, func() (sem.Ver, error) { return sem.LatestVersion(ra, rb) }, func(s string) (sem.Ver, error) { return sem.ParseVersion(s) }},
+	)
+	defer func() {
+		if string(rec) != ta+tb+"|END" {
+			w.Fail("helper-modified-its-input", "helpers", rt.Args("a", ta, "b", tb), string(rec), ta+tb+"|END", "a string helper wrote into the byte slices it was given")
+		}
+	}()
 	for _, h := range hs {
 		wantErr := !textValidFor(ta, h.version, h.tag) || !textValidFor(tb, h.version, h.tag)
 		fail := func(key, got, want string) {
@@ -358,6 +371,40 @@ func runC14(c *rt.Ctx) {
 			}
 		}
 	})
+	// configuration: a caller-supplied ComparePreRelease (natural order of digit runs). Whatever order is
+	// configured, every helper must return what comparing the parsed values returns.
+	{
+		old := sem.ComparePreRelease
+		sem.ComparePreRelease = func(a, b string) int {
+			switch {
+			case a == b:
+				return 0
+			case a == "":
+				return 1
+			case b == "":
+				return -1
+			case len(a) != len(b): // deliberately different from the default order: shorter text is lower
+				if len(a) < len(b) {
+					return -1
+				}
+				return 1
+			case a < b:
+				return 1 // and reversed within one length
+			}
+			return -1
+		}
+		c.Parallel("custom-compare-prerelease", 0, func(w *rt.W) {
+			pool := []string{"1.0.0-rc9", "1.0.0-rc10", "1.0.0-rc.9", "1.0.0-rc.10", "1.0.0", "1.0.0-a", "1.0.0-b", "1.0.0-ab", "v1.0.0-rc9", "v1.0.0-rc10", "v1.0.0-b", "v1.0.0-a", "1.0.1-a", "1.0.0-a+x", "v1.0.0"}
+			for i := w.Shard; i < len(pool); i += w.NShards {
+				for _, b := range pool {
+					c14Helpers(w, pool[i], b)
+					w.ClassN("helpers-under-custom-compare-prerelease", 1)
+				}
+			}
+		})
+		sem.ComparePreRelease = old
+		c.Require("helpers-under-custom-compare-prerelease", 200)
+	}
 	c.Require("helper-error-case", 10000)
 	c.Require("helper-value-case", 10000)
 }
